@@ -88,6 +88,13 @@ def configs(tier):
     out.append({"ref": "r3", "gt": ["a", "b"], "pivot": "float_pivot", "bound": None, "history": [["init", None]]})
     out.append({"ref": "r3", "gt": None, "pivot": "int_pivot", "bound": 3, "history": [["init", ["a", "b"]]]})
     out.append({"ref": "r2", "gt": None, "pivot": "float_pivot", "bound": None, "history": [["initref", "r3long"]]})
+    # a draw, then the reference grows (other bounds, other average length), then re-initialisation
+    out.append({"ref": "r2", "gt": None, "pivot": "float_pivot", "bound": 2 if tier == "quick" else 3,
+                "history": [["init", None], ["sample"], ["add", "a", 20, 30, "x"]]})
+    out.append({"ref": "r3", "gt": ["a", "b"], "pivot": "int_pivot", "bound": 2 if tier == "quick" else 3,
+                "history": [["init", None], ["sample"], ["add", "b", -6, -2, "y"]]})
+    # ground truth given as an iterable with a repeated name
+    out.append({"ref": "r3", "gt": ["a", "b", "a"], "pivot": "float_pivot", "bound": None})
     return out
 
 
@@ -101,15 +108,21 @@ def make_fn_factory(cfg):
         if ref["reset"]:
             c.reset_bounds()
         s = pa.ShuffleContinuumSampler(pivot_type=cfg["pivot"])
-        for prev in cfg.get("history", []):
-            # non-initial state: the same sampler object was initialised before (other ground truth / reference)
-            if prev[0] == "init":
-                s.init_sampling(c, prev[1])
-            elif prev[0] == "initref":
-                s.init_sampling(build_continuum(REFS[prev[1]]["spec"]), None)
-        s.init_sampling(c, cfg["gt"])
 
         def fn():
+            from pyannote.core import Segment
+            for prev in cfg.get("history", []):
+                # non-initial state: the same sampler object was initialised / used before, the reference grew
+                if prev[0] == "init":
+                    s.init_sampling(c, prev[1])
+                elif prev[0] == "initref":
+                    s.init_sampling(build_continuum(REFS[prev[1]]["spec"]), None)
+                elif prev[0] == "sample":
+                    s.sample_from_continuum
+                elif prev[0] == "add":
+                    c.add(prev[1], Segment(prev[2], prev[3]), prev[4])
+            e1.mark("judged")
+            s.init_sampling(c, cfg["gt"])
             sample = s.sample_from_continuum
             return continuum_to_spec(sample), c.bounds, c.avg_length_unit
         return fn
@@ -151,10 +164,20 @@ def parse_log(log):
     return recs
 
 
+def cfg_spec(cfg):
+    spec = {"annotators": [[a, [list(u) for u in us]] for a, us in REFS[cfg["ref"]]["spec"]["annotators"]]}
+    for step in cfg.get("history", []):
+        if step[0] == "add":
+            for a, us in spec["annotators"]:
+                if a == step[1]:
+                    us.append([step[2], step[3], step[4]])
+    return spec
+
+
 def judge_factory(cfg):
     ref = REFS[cfg["ref"]]
-    byann = dict(spec_by_annotator(ref["spec"]))
-    gt = sorted(cfg["gt"]) if cfg["gt"] else sorted(byann)
+    byann = dict(spec_by_annotator(cfg_spec(cfg)))
+    gt = sorted(set(cfg["gt"])) if cfg["gt"] else sorted(byann)
     int_mode = cfg["pivot"] == "int_pivot"
 
     def judge(val, exc, log):
@@ -170,6 +193,11 @@ def judge_factory(cfg):
         if len(anns) != n:
             probs.append((f"sample has {len(anns)} annotators, ground truth has {n}", None))
             return probs
+        for k in range(len(log) - 1, -1, -1):
+            if log[k]["fn"] == "mark" and log[k]["event"] == "judged":
+                log = log[k + 1:]
+                break
+        log = [e for e in log if e["fn"] != "mark"]
         try:
             recs = parse_log(log)
         except (AssertionError, IndexError, KeyError) as e:
